@@ -169,7 +169,7 @@ class Blake2(Blake):
                 nextcnt = self.padmethod.bitcnt
             except StopIteration:
                 # set f0 finalization flag (blk is last)
-                self.f[0]= -1
+                if padding: self.f[0]= -1
                 nextblk = None
                 nextcnt = None
             # counter of the block being compressed (not of the look-ahead):
